@@ -602,4 +602,14 @@ def replay(ctx, obj) -> int:
         for v in ctx.violations:
             print('FAIL', v['clause'], v['what'])
         return 1 if ctx.violations else 0
+    if 'name' in obj and 'layout' in obj:
+        from pymap.backend.maildir.layout import DefaultLayout, FilesystemLayout
+        from mailbox import Maildir
+        cls = DefaultLayout if obj['layout'] in ('LPlus', '++') else FilesystemLayout
+        try:
+            got = cls('/r/u1', Maildir).get_path(obj['name'], '/')
+            print(repr(obj['name']), '->', got, '->', posixpath.normpath(got))
+            return 0 if posixpath.normpath(got).startswith('/r/u1/') or obj['name'] == 'INBOX' else 1
+        except Exception as exc:
+            print(repr(obj['name']), 'refused:', repr(exc))
     return 0
